@@ -140,13 +140,36 @@ func mkBool(b bool) *Term {
 	return falseT
 }
 
-type termFactory struct {
-	next uint32
+type termKey struct {
+	op      Op
+	w       uint16
+	val     uint64
+	a, b, c *Term
 }
 
+type termFactory struct {
+	next  uint32
+	table map[termKey]*Term
+}
+
+// newTerm hash-conses: structurally equal terms are pointer-equal, so the
+// interval pre-solver and the trivial-equality folds see repeated conditions.
 func (f *termFactory) newTerm(op Op, w uint16, a, b, c *Term) *Term {
+	return f.newTermV(op, w, 0, a, b, c)
+}
+
+func (f *termFactory) newTermV(op Op, w uint16, val uint64, a, b, c *Term) *Term {
+	if f.table == nil {
+		f.table = map[termKey]*Term{}
+	}
+	k := termKey{op, w, val, a, b, c}
+	if t, ok := f.table[k]; ok {
+		return t
+	}
 	f.next++
-	return &Term{op: op, w: w, a: a, b: b, c: c, id: f.next}
+	t := &Term{op: op, w: w, val: val, a: a, b: b, c: c, id: f.next}
+	f.table[k] = t
+	return t
 }
 
 func (f *termFactory) mkVar(name string, w uint16) *Term {
@@ -324,6 +347,25 @@ func (f *termFactory) Cmp(op Op, a, b *Term) *Term {
 			return falseT
 		}
 	}
+	// comparisons of a zero-extended value with a constant narrow to the
+	// original width
+	if a.op == OpZExt && b.IsConst() && (op == OpEq || op == OpUlt || op == OpUle) {
+		nw := a.a.w
+		if b.val > mask(nw) {
+			if op == OpEq {
+				return falseT
+			}
+			return trueT
+		}
+		return f.Cmp(op, a.a, mkConst(b.val, nw))
+	}
+	if b.op == OpZExt && a.IsConst() && (op == OpEq || op == OpUlt || op == OpUle) {
+		nw := b.a.w
+		if a.val > mask(nw) {
+			return falseT
+		}
+		return f.Cmp(op, mkConst(a.val, nw), b.a)
+	}
 	if op == OpEq && a.w == 0 {
 		// bool equality with const
 		if a.IsConst() {
@@ -440,9 +482,7 @@ func (f *termFactory) Extract(a *Term, hi, lo uint16) *Term {
 	if a.IsConst() {
 		return mkConst(a.val>>lo, w)
 	}
-	t := f.newTerm(OpExtract, w, a, nil, nil)
-	t.val = uint64(hi)<<16 | uint64(lo)
-	return t
+	return f.newTermV(OpExtract, w, uint64(hi)<<16|uint64(lo), a, nil, nil)
 }
 
 func (f *termFactory) ZExt(a *Term, w uint16) *Term {
